@@ -359,8 +359,7 @@ Proof.
   end.
   { destruct (pi_search (st_pindex s) ev); try exact HP. apply find_ids_idx_P; exact HP. }
   cbn [fst] in H.
-  destruct res as [l|e|w|]; try exact H.
-  destruct (check_rules l); exact H.
+  destruct res as [l|e|w|]; exact H.
 Qed.
 
 Lemma st_clear_P s : P s -> P (fst (st_clear s)).
